@@ -5,7 +5,7 @@ use std::cell::RefCell;
 use std::collections::{BTreeMap, HashSet};
 use std::io::Write;
 use std::panic::{catch_unwind, AssertUnwindSafe};
-use std::sync::atomic::{AtomicU64, Ordering};
+use std::sync::atomic::{AtomicBool, AtomicU64, Ordering};
 use std::sync::Mutex;
 
 #[derive(Clone, Debug)]
@@ -125,6 +125,9 @@ pub fn sample_tagged(tag: &str, v: impl FnOnce() -> Value) {
 /// Records a violation. `sig` is the stable signature (see DESIGN 2.6), `what` a one-line
 /// description, `detail` the witness.
 pub fn violation(sig: &str, what: &str, detail: Value) {
+    if abandoned() {
+        return;
+    }
     let case = CUR_CASE.lock().unwrap().clone();
     let a = args();
     with_report(|r| {
@@ -170,8 +173,25 @@ pub fn mine(idx: u64) -> bool {
             }
         }
     }
+    ABANDONED.store(false, Ordering::SeqCst);
     case_begin(idx, Value::Null);
     true
+}
+
+static ABANDONED: AtomicBool = AtomicBool::new(false);
+
+/// The input of the current case could not be prepared (a mutation call panicked while the
+/// graph was being built): nothing observed on the half-built graph is attributed to the
+/// property under test. Counted, so that a run made of abandoned cases ends inconclusive
+/// through its minimum-reach rule rather than as "held".
+pub fn abandon_case(why: &str) {
+    if !ABANDONED.swap(true, Ordering::SeqCst) {
+        count(&format!("abandoned-case:{}", why));
+    }
+}
+
+pub fn abandoned() -> bool {
+    ABANDONED.load(Ordering::SeqCst)
 }
 
 thread_local! {
@@ -236,6 +256,11 @@ fn install_panic_hook() {
             .location()
             .map(|l| format!("{}:{}", l.file(), l.line()))
             .unwrap_or_default();
+        if !IN_CALL.load(Ordering::SeqCst) && info.payload().downcast_ref::<graphrs::verif_hooks::BudgetExceeded>().is_none() {
+            // a panic outside any guarded library call is a fault of the harness itself (or of
+            // an unguarded preparation step): leave a trace for the driver's "inconclusive" report
+            eprintln!("unguarded panic: {} at {}", msg, loc);
+        }
         LAST_PANIC.with(|p| *p.borrow_mut() = Some((msg, loc)));
     }));
 }
@@ -338,6 +363,7 @@ fn start_watchdog(budget_s: f64) {
                 cpu_at_change = cpu;
                 continue;
             }
+            maxf("max_cpu_seconds_seen_inside_one_guarded_call", cpu - cpu_at_change);
             if cpu - cpu_at_change > budget_s {
                 // the open call has burnt more CPU than any correct call can: bounded-progress violation
                 let f = *CUR_FN.lock().unwrap_or_else(|e| e.into_inner());
